@@ -31,7 +31,7 @@ let dump (c : VersionModel.vmm) : string =
   Stdlib.List.iter (fun (k, v) -> Buffer.add_string b (Printf.sprintf "(%s,%s)" (zs k) (zs v))) tr;
   Buffer.contents b
 
-let run_mm (mfast : coq_Z) (ops : string list) : string =
+let run_mm ?(keyver = false) (mfast : coq_Z) (ops : string list) : string =
   let s = ref VersionModel.vst_empty in
   let recs = ref [] in
   Stdlib.List.iter (fun tok ->
@@ -105,6 +105,20 @@ let run_mm (mfast : coq_Z) (ops : string list) : string =
                          (string_of_int (Stdlib.List.length (traverse (fst dead)))) in
                s := VersionModel.vstep mfast !s VersionModel.VReviveOther; r
       | _ -> "?" in
+    (* nested map's key-version counter (configurations with checkKeyVersion): did the call change it?  kver_changes on the pre-state *)
+    let ret =
+      if keyver && not inject && String.contains "aAinrRpvkKtcGM" c && ret <> "skip" && not (c = 'c' && es = []) then begin
+        let o = match c with
+          | 'a' -> Some (OAdd (a.(0), a.(1), a.(2))) | 'A' -> Some (OAddAt (a.(0), a.(1))) | 'i' -> Some (OInsertKey (a.(0), a.(1)))
+          | 'n' -> Some (OAddKey (a.(0), a.(1))) | 'r' | 'R' -> Some (ORemove (a.(0), nat_of_int (int_of_z a.(1))))
+          | 'p' -> Some (ORemoveIf (lin_pred a.(0) a.(1) a.(2) a.(3))) | 'v' -> Some (ORemoveValues a.(0))
+          | 'k' | 'K' -> Some (ORemoveKey a.(0)) | 't' -> Some (OResetKey (a.(0), a.(1))) | 'c' -> Some OClear
+          | 'G' -> let rec trip i = if i + 2 < Array.length a then ((a.(i), a.(i+1)), a.(i+2)) :: trip (i + 3) else [] in Some (OAddRange (trip 0))
+          | _ -> None in
+        match o with
+        | Some o -> ret ^ (if VersionModel.kver_changes mfast cur o then "~kv+" else "~kv=")
+        | None -> ret ^ "~kv=" end
+      else ret in
     let r = ret ^ ";" ^ dump (fst !s) ^ (if !both then ";" ^ dump (snd !s) else "") in
     recs := r :: !recs) ops;
   String.concat "|" (Stdlib.List.rev !recs)
@@ -230,6 +244,6 @@ let () = iter_lines (fun line ->
   match words line with
   | "ab2" :: m :: ops -> print_endline (run_ab2 (z_of_string m) ops)
   | "hx" :: ops -> print_endline (run_hx_hand ops)
-  | "mm" :: _bucket :: m :: _vt :: _hm :: ops -> print_endline (run_mm (z_of_string m) ops)
+  | "mm" :: bucket :: m :: _vt :: _hm :: ops -> print_endline (run_mm ~keyver:(bucket = "O2.c" || bucket = "L.f") (z_of_string m) ops)
   | "um" :: _bucket :: m :: _hm :: k :: ops -> print_endline (run_um (z_of_string m) (int_of_string k) ops)
   | _ -> print_endline "?")
